@@ -409,6 +409,19 @@ class C13(Check):
                       ("FloorDiv", ("Sum", T(a, C(10))), ("Sum", T(b, c)))):
                 yield ("t", t)
 
+    FLOATS = (0.1 + 0.2, 1.1 * 3, 1e16 + 2.0, 0.7 + 0.1, 123456789.12345678, 5e-324, 1.7976931348623157e308, 2.2250738585072014e-308, 1e15, 1e16, 1e22, 1e-7, 1e23, 6.02e23, 0.1)
+
+    def gen_floats(self):
+        """constants whose shortest repr needs 17 significant digits, denormals, the largest double:
+        the generated source must hold them digit for digit (values are compared exactly here)"""
+        x = V("x")
+        for f in self.FLOATS:
+            c = C(f)
+            for t in (c, ("Sum", T(x, c)), ("Product", T(c, x)), ("Quotient", x, c),
+                      ("Comparison", x, ("str", "<"), c), ("If", ("Comparison", x, ("str", "<"), c), c, x),
+                      ("Call", V("f"), T(c)), ("Subscript", V("arr"), T(c, x))):
+                yield ("t", t)
+
     def gen_fracpow(self):
         """non-integer constant exponents (the box has negative values: complex results)"""
         x, y = V("x"), V("y")
@@ -510,6 +523,7 @@ class C13(Check):
             ("variable-names", self.gen_names),
             ("negative-constants", self.gen_negconsts),
             ("wide", lambda: self.gen_wide(tier)),
+            ("float-precision", self.gen_floats),
             ("fractional-powers", self.gen_fracpow),
             ("differences", self.gen_differences),
             ("short-circuit", self.gen_shortcircuit),
